@@ -1,4 +1,5 @@
-import OV.Lemmas.C01Names
+import OV.Lemmas.C01Scope
+import OV.Lemmas.C01Total
 /-!
 # C02 — every proto the converter emits is well-formed ONNX; bad programs are refused
 
@@ -9,18 +10,24 @@ What is proved for ALL programs of the modelled language (straight-line code, tu
 assignment, `if`/`else`, `for`, `while`, trailing `break`, nested to any depth, any number of
 parameters):
 
-* `fresh_not_used`                — `_generate_unique_name` never returns a used name, and records it;
+* `fresh_not_used`, `generate_unique_total` — `_generate_unique_name` always returns, never a used name, and
+                                     records it;
 * `convert_single_assignment`     — every name defined anywhere in the emitted body (inputs, node outputs,
                                      Loop-body inputs, at every depth) is defined exactly once; hence no
                                      subgraph redefines an outer name;
+* `convert_wf_partial`            — … together with scoped definition-before-use (outer-scope visibility,
+                                     subgraph outputs produced inside, arities), visibility and pairwise
+                                     distinctness of the function outputs: every clause of the property's
+                                     structural part except the two that are false for the code as it is;
+* `convert_wf`                    — the whole of `wfGraph` (adding "no graph input is returned directly") under
+                                     the hypothesis that no tensor parameter is re-assigned;
 * `wfGraph_sound`                  — the executable checker `wfGraph` (run by the harness on the protos the
                                      REAL converter emitted, parsed back into `Graph`) implies the
                                      declarative well-formedness clauses.
 
 What is refuted (reproduced on the real code, see known_findings.d): `convert_wf_full_refuted` (a graph
 input returned directly, C01-D26), `subgraph_outputs_distinct_refuted` (C01-D30), `nested_param_not_fresh_witness`
-(D19).  Scoped definition-before-use of the model's own output is not proved as a theorem about
-`convert`; it is decided per program by `wfGraph` on both the model's and the real graph.
+(D19).
 -/
 namespace OV.Props.C02
 open OV.C01
@@ -30,6 +37,12 @@ name was not in `_used_vars`, and `_used_vars` afterwards is exactly the old set
 theorem fresh_not_used (cand r : Name) (s s' : St) (h : genUnique cand s = .ok (r, s')) :
     r ∉ s.used ∧ s'.used = r :: s.used :=
   ⟨(genUnique_spec h).1, (genUnique_spec h).2.1⟩
+
+/-- **`_generate_unique_name` always returns.**  The `while r in self._used_vars` loop tries pairwise distinct
+candidates `cand_k, cand_{k+1}, …` (decimal rendering of naturals is injective), so at most `|used| + 1`
+rounds are needed: the model's fuel is never exhausted, for any candidate and any state. -/
+theorem generate_unique_total (cand : Name) (s : St) : ∃ r s', genUnique cand s = .ok (r, s') :=
+  genUnique_total cand s
 
 example : (match genUnique "x" { used := ["x", "x_0"], next := 0, castable := [] } with
     | .ok (r, s') => r == "x_1" && s'.used == ["x_1", "x", "x_0"] && s'.next == 2
@@ -57,6 +70,52 @@ def demo : Func :=
 
 example : (convert demo).toOption.isSome = true := by decide +kernel
 example : (tensorParams demo.params).Nodup := by decide
+
+/-- **Well-formedness of everything the converter emits, except the one clause that is false.**  For every
+accepted program of the modelled language (straight-line code, tuple / parallel assignment, `if`, `for`,
+`while`, trailing `break`, nested to any depth):
+1. every name is defined exactly once across the graph and all nested subgraphs (so no subgraph redefines
+   an outer name);
+2. scoped definition-before-use: every node input, at every depth, is a function input, an earlier output
+   of the same graph, or a value of an enclosing graph defined before the enclosing If/Loop; every
+   If-branch / Loop-body output is produced by a node *of that subgraph*; branch and body arities match
+   (`wfNodes`);
+3. every function output is visible at the end of the body;
+4. function outputs are pairwise distinct.
+`_partial`: the remaining clause of the property, "no graph input is returned directly", does not hold for
+the code as it is (`convert_wf_full_refuted`, finding C01-D26), and distinctness of *subgraph* outputs does
+not either (`subgraph_outputs_distinct_refuted`, C01-D30). -/
+theorem convert_wf_partial (f : Func) (g : Graph) (h : convert f = .ok g)
+    (hparams : (tensorParams f.params).Nodup) :
+    g.allDefs.Nodup ∧ wfNodes g.inputs g.nodes = true
+      ∧ (∀ o, o ∈ g.outputs → o ∈ g.inputs ++ topDefs g.nodes) ∧ g.outputs.Nodup :=
+  ⟨convert_allDefs_nodup h hparams, (convert_scoped_ok h).1, (convert_scoped_ok h).2,
+    convert_outputs_nodup h⟩
+
+/-- **`convert_wf`: every accepted program yields a well-formed graph — under the one hypothesis the proof
+forces.**  If no tensor parameter is re-assigned in the body (`ParamsNotReassigned`; Python's rule that
+parameter names are distinct is the other hypothesis), the emitted function body passes the whole decision
+procedure `wfGraph`: single assignment across all nested scopes, scoped definition-before-use with
+outer-scope visibility, subgraph outputs produced inside, outputs visible and pairwise distinct, **and no
+graph input returned directly**.  Without the hypothesis the last clause fails: `convert_wf_full_refuted`. -/
+theorem convert_wf (f : Func) (g : Graph) (h : convert f = .ok g)
+    (hnames : (f.params.map Param.name).Nodup) (hna : ParamsNotReassigned f) : wfGraph g = true :=
+  convert_wfGraph h hnames hna
+
+/-- Non-vacuity of `convert_wf`: `demo` (an `if` inside a `for`) satisfies both hypotheses and is accepted. -/
+example : (demo.params.map Param.name).Nodup ∧ (convert demo).toOption.isSome = true := by
+  constructor
+  · decide
+  · decide +kernel
+
+example : ParamsNotReassigned demo := by
+  intro d hd x hx
+  have : assignedBlock demo.body = some ["i", "x"] := by decide
+  rw [this] at hd
+  cases hd
+  simp only [demo, tensorParams, List.filterMap_cons, List.filterMap_nil, List.mem_cons,
+    List.mem_nil_iff, or_false] at hx
+  rcases hx with rfl | rfl | rfl <;> decide
 
 theorem nodupB_iff (l : List Name) : nodupB l = true ↔ l.Nodup := by
   induction l with
